@@ -1,7 +1,7 @@
 CONSTANT Threads = {1, 2}
-CONSTANT MaxCalls = 2
+CONSTANT MaxCalls = 1
 CONSTANT AsCodedReinit = FALSE
-CONSTANT AllowEdits = FALSE
+CONSTANT AllowEdits = TRUE
 CONSTANT CastInPlace = FALSE
 SPECIFICATION Spec
 INVARIANT Immutable
